@@ -82,6 +82,16 @@ CHECKS["C09"] = {
     "note": "time advances in whole units so that now - T = expiry exactly is exercised; same-instant gauge datapoints may resolve either way",
     "technique": "TLC-enumerated operation histories with per-flush expected reports replayed under testing/synctest virtual time",
 }
+CHECKS["C10"] = {
+    "text": "TagStage.tla gives the filter / static-tag / de-duplication rules declaratively and models the ordered loop with its early "
+            "exits, the dropTags map and the in-place swap-remove; TLC shows them equal for every single filter over the small pattern "
+            "pool, every pair of name-agnostic filters, and seeded triples over the full pool; each case runs through a real TagHandler "
+            "(fresh, and after a prelude of other metrics) in all four metric types; coinciding series are checked with the MCMerge "
+            "families through the stage's collision merge.",
+    "design_ref": "6/C10",
+    "note": "strings over a three-letter alphabet; regexes limited to prefix / suffix / infix forms whose meaning is definable in TLA+",
+    "technique": "TLC-enumerated filter configurations x metrics with declarative expected output replayed into TagHandler",
+}
 NOT_APPLICABLE = [{"property_id": p, "reason": "check not built yet (build in progress; see DESIGN.md Appendix B for the order)"}
                   for p in ALL if p not in CHECKS]
 ENGINES[0]["serves_properties"] = sorted(CHECKS)
